@@ -66,7 +66,7 @@ Lemma stw_edge_set_eq : stw_edge_set = edge_nodup stw_edges.
 Proof. vm_compute. reflexivity. Qed.
 
 Lemma stw_edge_set_In : forall e, edge_mem e stw_edge_set = true -> In e stw_edges.
-Proof. intros e H. apply edge_mem_In in H. rewrite stw_edge_set_eq in H. apply edge_nodup_In in H. exact H. Qed.
+Proof. intros e H. apply edge_mem_In in H. rewrite stw_edge_set_eq in H. exact (proj1 (edge_nodup_In e stw_edges) H). Qed.
 
 (* (a) *)
 Theorem stw_witness_sound : forall e, In e stw_edges ->
@@ -120,8 +120,8 @@ Definition Icfg (c : cfg) (s : st) : Prop := forall u, u <> W -> cfg_ok c (cl s 
 
 Lemma Icfg_step : forall c s t e s', Icfg c s -> step c s t e = Some s' -> Icfg c s'.
 Proof.
-  intros c s t e s' I H. unfold Icfg in *.
-  scases H t; intros u Hu; assert (It := I t); specialize (I u Hu); unfold cfg_ok in *; per_thread I u Hu; rw_facts; auto;
+  intros c s t e s' I H. unfold Icfg in *. assert (It := I t).
+  scases H t; intros u Hu; specialize (I u Hu); unfold cfg_ok in *; per_thread I u Hu; rw_facts; auto;
     try (specialize (It EW)); rw_facts; auto.
 Qed.
 
@@ -134,7 +134,7 @@ Lemma stw_dead_needs_bad_cfg : forall c s t e s', step c s t e = Some s' ->
   edge_mem (stw_edge c s t e s') stw_dead_edges = true -> t <> W /\ cfg_ok c (cl s t) = false.
 Proof.
   intros c s t e s' H. unfold cfg_ok. edge_cases H; fin; intros X; try discriminate X;
-    (split; [intros ->; discriminate|]); rw_bools; auto.
+    (split; [assumption|reflexivity]).
 Qed.
 
 Theorem stw_dead_edges_unreachable : forall c s t ev s', R c s -> step c s t ev = Some s' ->
@@ -148,7 +148,7 @@ Lemma stw_dead_edges_disjoint : forall e, In e stw_dead_edges -> ~ In e stw_edge
 Proof.
   intros e Hd Hin. assert (X : forallb (fun d => negb (edge_mem d stw_edge_set)) stw_dead_edges = true) by (vm_compute; reflexivity).
   rewrite forallb_forall in X. specialize (X e Hd). apply negb_true_iff in X. apply edge_mem_false in X. apply X.
-  rewrite stw_edge_set_eq. apply edge_nodup_In. exact Hin.
+  rewrite stw_edge_set_eq. exact (proj2 (edge_nodup_In e stw_edges) Hin).
 Qed.
 
 (* they are transitions of the model: (unreachable) states that take them *)
@@ -183,7 +183,7 @@ Proof.
 Qed.
 
 (* (d) *)
-Lemma stw_edge_count : length (edge_nodup stw_edges) = 0 /\ length stw_dead_edges = 4 /\ length stw_witness = 0.
+Lemma stw_edge_count : length (edge_nodup stw_edges) = 63 /\ length stw_dead_edges = 4 /\ length stw_witness = 26.
 Proof. vm_compute. repeat split; reflexivity. Qed.
 End StwCover.
 
@@ -197,7 +197,7 @@ Lemma tp_edge_set_eq : tp_edge_set = edge_nodup tp_edges.
 Proof. vm_compute. reflexivity. Qed.
 
 Lemma tp_edge_set_In : forall e, edge_mem e tp_edge_set = true -> In e tp_edges.
-Proof. intros e H. apply edge_mem_In in H. rewrite tp_edge_set_eq in H. apply edge_nodup_In in H. exact H. Qed.
+Proof. intros e H. apply edge_mem_In in H. rewrite tp_edge_set_eq in H. exact (proj1 (edge_nodup_In e tp_edges) H). Qed.
 
 Theorem tp_witness_sound : forall e, In e tp_edges ->
   exists c s t ev s', R c s /\ step c s t ev = Some s' /\ tp_edge c s t ev s' = e.
@@ -237,7 +237,7 @@ Theorem tp_no_dead_transition : forall c s t ev s', step c s t ev = Some s' ->
   exists c0 s0 t0 ev0 s0', R c0 s0 /\ step c0 s0 t0 ev0 = Some s0' /\ tp_edge c0 s0 t0 ev0 s0' = tp_edge c s t ev s'.
 Proof. intros c s t ev s' H. apply tp_witness_sound. eapply tp_edges_complete; exact H. Qed.
 
-Lemma tp_edge_count : length (edge_nodup tp_edges) = 0 /\ length tp_witness = 0.
+Lemma tp_edge_count : length (edge_nodup tp_edges) = 47 /\ length tp_witness = 15.
 Proof. vm_compute. repeat split; reflexivity. Qed.
 End TpCover.
 
